@@ -4,7 +4,7 @@ from pyvc import vals as V
 from pyvc.vals import Val
 from pyvc import classes as C
 from pyvc import trusted as T
-from pyvc.contracts import Contract, Field, Param, Ghost, LoopSpec
+from pyvc.contracts import Contract, Field, Param, Ghost, LoopSpec, Fresh
 from pyvc.jsonish import jsonv, json_tags
 
 TABLE = T.Table()
@@ -65,6 +65,7 @@ CONFIG = "jsonrpclib.config.Config"
 
 T.declare_ghost("uuid_ctr", z3.IntSort())
 T.declare_ghost("call_log", Val)
+T.declare_ghost("xlate_log", Val)          # calls made by the class translator (handlers, _serialize, constructors)
 T.declare_ghost("imports", Val)
 T.declare_ghost("constructs", Val)
 T.declare_ghost("wire", Val)
@@ -90,7 +91,9 @@ def _setup_default(st):
     st.settype(V.VObj(DEFAULT_REF), _cfgmod.Config)
     # domain assumption: the shared default configuration holds valid values when the call starts
     rd = lambda f: st.read(DEFAULT_REF, f)
-    st.assume(z3.And(is_version(rd("version")), V.is_bool(rd("use_jsonclass")), V.is_str(rd("content_type")),
+    st.assume(z3.And(z3.Or(rd("version") == V.VFloat(z3.RealVal(1)), rd("version") == V.VFloat(z3.RealVal(2)),
+                           rd("version") == V.I(1), rd("version") == V.I(2)),
+                     V.is_bool(rd("use_jsonclass")), V.is_str(rd("content_type")),
                      V.is_str(rd("user_agent")), V.is_str(rd("serialize_method")), V.is_str(rd("ignore_attribute")),
                      V.is_dict(rd("classes")), V.is_dict(rd("serialize_handlers"))))
 
@@ -191,9 +194,14 @@ def version_num(v):
     return z3.If(V.is_str(v), V.float_of_str(Val.s(v)), V.num(v))
 
 
+def is_config_version(v):
+    """Config.version: numeric (the server compares it with `>= 2`)"""
+    return z3.Or(v == V.VFloat(z3.RealVal(1)), v == V.VFloat(z3.RealVal(2)), v == V.I(1), v == V.I(2))
+
+
 def valid_config(c, cfg, heap="old"):
     rd = c.old if heap == "old" else c.new
-    return z3.And(is_version(rd(cfg, "version")), V.is_bool(rd(cfg, "use_jsonclass")),
+    return z3.And(is_config_version(rd(cfg, "version")), V.is_bool(rd(cfg, "use_jsonclass")),
                   V.is_str(rd(cfg, "content_type")), V.is_str(rd(cfg, "user_agent")),
                   V.is_str(rd(cfg, "serialize_method")), V.is_str(rd(cfg, "ignore_attribute")),
                   V.is_dict(rd(cfg, "classes")), V.is_dict(rd(cfg, "serialize_handlers")))
@@ -217,3 +225,242 @@ def keyset_if(pairs):
 TABLE.entry_setup = _setup_default
 
 TABLE.global_objects = [(DEFAULT_REF, _cfgmod.DEFAULT)]
+
+
+# ---------------------------------------------------------------------------------------------------------
+# dynamic attribute access, tracebacks, dotted-name resolution
+has_attr = z3.Function("has_attr", Val, z3.StringSort(), z3.BoolSort())      # hasattr(obj, name) for opaque objects
+attr_of = z3.Function("attr_of", Val, z3.StringSort(), Val)                  # getattr(obj, name) for opaque objects
+resolvable = z3.Function("resolvable", Val, z3.StringSort(), z3.BoolSort())  # dotted resolution succeeds
+resolved = z3.Function("resolved", Val, z3.StringSort(), Val)
+opaque_str = z3.Function("opaque_str", z3.StringSort(), z3.StringSort(), z3.StringSort())   # (method name, s) -> s'
+opaque_lines = z3.Function("opaque_lines", z3.StringSort(), Val)
+
+
+def private_segment(m):
+    """some '.'-separated segment of m starts with '_'"""
+    return z3.Or(z3.PrefixOf(sv("_"), m), z3.Contains(m, sv("._")))
+
+
+def _getattr_dyn(ex, st, args, text):
+    """getattr(obj, name[, default]) on an instance the verifier knows nothing about: AttributeError unless
+    has_attr(obj, name); the value is attr_of(obj, name) (opaque); invokes nothing"""
+    from pyvc.symexec import BoundMeth
+    obj, name = ex.lift(args[0]), ex.lift(args[1])
+    pycls = st.typeof(obj) if z3.is_expr(obj) else None
+    lit = None
+    if z3.is_expr(name):
+        nm = z3.simplify(Val.s(name))
+        if z3.is_string_value(nm):
+            lit = nm.as_string()
+    if pycls is not None and lit is not None:
+        res = ex.getattr_(st, obj, lit)
+        if len(args) > 2:
+            out = []
+            for s2, oc in res:
+                if oc[0] == "raise":
+                    out.extend(ex.fork(s2, [(C.subclass(C.cls_of(Val.ref(oc[1])), AttributeError), ("val", ex.lift(args[2]))),
+                                            (z3.Not(C.subclass(C.cls_of(Val.ref(oc[1])), AttributeError)), oc)], "getattr-default"))
+                else:
+                    out.append((s2, oc))
+            return out
+        return res
+    T.used("getattr on an opaque object", _getattr_dyn.__doc__.strip())
+    if not z3.is_expr(obj):
+        raise T.Unsupported("getattr on a meta value") if hasattr(T, "Unsupported") else Exception("getattr on meta")
+    h = has_attr(obj, Val.s(name))
+    val = attr_of(obj, Val.s(name))
+    if len(args) > 2:
+        return [(st, ("val", z3.If(h, val, ex.lift(args[2]))))]
+    return ex.apply_op(st, [(h, ("val", val)), (z3.Not(h), ("raise", AttributeError))], "getattr")
+
+
+TABLE.getattr_dyn = _getattr_dyn
+
+
+def _hasattr(ex, st, obj, name, text):
+    """hasattr(obj, name) on an opaque object: the uninterpreted has_attr(obj, name)"""
+    obj, name = ex.lift(obj), ex.lift(name)
+    T.used("hasattr on an opaque object", _hasattr.__doc__.strip())
+    from pyvc.symexec import Meta, BoundMeth
+    if isinstance(obj, (Meta, BoundMeth)):
+        if isinstance(obj, BoundMeth):
+            return [(st, ("val", V.B(True)))]
+        nm = z3.simplify(Val.s(name))
+        return [(st, ("val", V.B(hasattr(obj.py, nm.as_string()))))]
+    return [(st, ("val", V.VBool(has_attr(obj, Val.s(name)))))]
+
+
+TABLE.hasattr_ = _hasattr
+
+
+@TABLE.register("xmlrpc.server.resolve_dotted_attribute")
+def _resolve_dotted(ex, st, args, kwargs, text):
+    """resolve_dotted_attribute(obj, name, True): AttributeError if a '.'-segment starts with '_' or is
+    missing, else the attribute; invokes nothing"""
+    obj, name = ex.lift(args[0]), ex.lift(args[1])
+    m = Val.s(name)
+    ok = z3.And(V.is_str(name), resolvable(obj, m))
+    st = st.copy()
+    st.assume(z3.Implies(resolvable(obj, m), z3.Not(private_segment(m))))
+    return ex.apply_op(st, [(ok, ("val", resolved(obj, m))), (z3.Not(ok), ("raise", AttributeError))], "resolve_dotted")
+
+
+@TABLE.register("sys.exc_info")
+def _exc_info(ex, st, args, kwargs, text):
+    """sys.exc_info(): (type, value, traceback) of the exception being handled"""
+    if not st.exc_stack:
+        raise Exception("sys.exc_info() outside a handler")
+    e = st.exc_stack[-1]
+    return [(st, ("val", V.mk_tuple([V.VType(C.cls_of(Val.ref(e))), e, V.fresh("tb")])))]
+
+
+@TABLE.register("traceback.format_exception")
+def _format_exception(ex, st, args, kwargs, text):
+    """traceback.format_exception(type, value, tb): a list of at least two str lines whose last one is
+    '<type name>: <str(value)>\\n' (exceptions with a single-line message, no notes)"""
+    from pyvc.symexec import Star
+    if len(args) == 1 and isinstance(args[0], Star):
+        t = args[0].val
+        e = z3.Select(Val.tat(t), 1)
+    else:
+        e = ex.lift(args[1])
+    st = st.copy()
+    lines = V.fresh("tb_lines")
+    n = Val.llen(lines)
+    last = z3.Select(Val.lat(lines), n - 1)
+    prev = z3.Select(Val.lat(lines), n - 2)
+    tname = C.cname(C.cls_of(Val.ref(e)))
+    st.assume(z3.And(V.is_list(lines), n >= 2, V.is_str(last), V.is_str(prev), z3.Length(Val.s(prev)) > 0,
+                     Val.s(last) == z3.Concat(tname, sv(": "), V.str_of(e), sv("\n"))))
+    return [(st, ("val", lines))]
+
+
+def _opaque_str_method(ex, st, s_, name, args):
+    """str.strip / str.splitlines: opaque (only used to format the first line of a traceback)"""
+    T.used("str.%s" % name, _opaque_str_method.__doc__.strip())
+    if name == "splitlines":
+        r = opaque_lines(Val.s(s_))
+        st = st.copy()
+        st.assume(z3.And(V.is_list(r), Val.llen(r) >= z3.If(z3.Length(Val.s(s_)) > 0, 1, 0)))
+        for j in range(2):
+            st.assume(V.is_str(z3.Select(Val.lat(r), z3.IntVal(j))))
+        alts = [(V.is_str(s_), ("val", r)), (z3.Not(V.is_str(s_)), ("raise", AttributeError))]
+        return ex.apply_op(st, alts, "splitlines")
+    r = V.VStr(opaque_str(sv(name), Val.s(s_)))
+    alts = [(V.is_str(s_), ("val", r)), (z3.Not(V.is_str(s_)), ("raise", AttributeError))]
+    return ex.apply_op(st, alts, name)
+
+
+TABLE.opaque_str_method = _opaque_str_method
+
+
+join_of = z3.Function("join_of", z3.StringSort(), Val, z3.StringSort())
+
+
+def _str_join(ex, st, sep, args):
+    """sep.join(xs): for a literal list of strings the exact concatenation; otherwise the opaque join_of(sep, xs)
+    with join_of(sep, []) == '' ; TypeError if an element is not a str"""
+    from pyvc.trusted import LazySeq
+    xs = args[0]
+    if isinstance(xs, LazySeq):
+        xs = xs.lst
+    T.used("str.join", _str_join.__doc__.strip())
+    sx = z3.simplify(xs)
+    n = z3.simplify(V.seq_len(sx))
+    if z3.is_int_value(n) and n.as_long() <= 8:
+        items = [z3.simplify(z3.Select(V.seq_at(sx), z3.IntVal(j))) for j in range(n.as_long())]
+        allstr = z3.And(*[V.is_str(i) for i in items]) if items else z3.BoolVal(True)
+        parts = []
+        for j, it in enumerate(items):
+            if j:
+                parts.append(Val.s(sep))
+            parts.append(Val.s(it))
+        res = z3.Concat(*parts) if len(parts) > 1 else (parts[0] if parts else sv(""))
+        return ex.apply_op(st, [(allstr, ("val", V.VStr(res))), (z3.Not(allstr), ("raise", TypeError))], "join")
+    st = st.copy()
+    st.assume(z3.Implies(V.seq_len(xs) == 0, join_of(Val.s(sep), xs) == sv("")))
+    return [(st, ("val", V.VStr(join_of(Val.s(sep), xs))))]
+
+
+TABLE.str_join = _str_join
+
+
+# ---------------------------------------------------------------------------------------------------------
+# environment callables: outcome recorded in ghost state so that contracts of repository functions can
+# speak about "the call that was made" (DESIGN 2.5: ghost updates are attached to trusted externals)
+T.declare_ghost("env_kind", z3.IntSort())      # 0: the last environment call returned, 1: it raised
+T.declare_ghost("env_val", Val)                # the returned value / the exception object
+T.declare_ghost("env_calls", z3.IntSort())     # number of environment calls so far
+
+import jsonrpclib.jsonrpc as _J
+
+
+def _env_call(ex, st, f, argv, kw, text, base=Exception):
+    """a callable supplied by the environment: appends (f, args, kwargs) to ghost call_log and bumps env_calls;
+    returns any value that is not a Fault instance (ghost env_kind=0, env_val=value) or raises any Exception
+    (env_kind=1, env_val=exception); ghost bind_err is true only if the TypeError was raised while binding
+    the arguments, i.e. before the body ran; writes no attribute of the repository's objects"""
+    T.used("environment callable", _env_call.__doc__.strip())
+    st = st.copy()
+    TABLE.ghost_append(st, "call_log", V.mk_tuple([f, argv, kw]))
+    st.ghost["env_calls"] = TABLE.ghost(st, "env_calls") + 1
+    ret = V.fresh("envret")
+    s_ok = st.copy()
+    s_ok.sig.append("env:%s:ret" % text)
+    s_ok.assume(z3.Not(z3.And(V.is_obj(ret), C.subclass(C.cls_of(Val.ref(ret)), _J.Fault))))
+    s_ok.assume(z3.Implies(V.is_obj(ret), Val.ref(ret) >= 0))
+    s_ok.ghost["env_kind"] = z3.IntVal(0)
+    s_ok.ghost["env_val"] = ret
+    s_ok.ghost["bind_err"] = z3.BoolVal(False)
+    s_ex = st.copy()
+    s_ex.sig.append("env:%s:raise" % text)
+    e = ex.env_exc(s_ex, base)
+    be = V.fresh("bind_err", z3.BoolSort())
+    s_ex.assume(z3.Implies(be, C.exact(C.cls_of(Val.ref(e)), TypeError)))
+    s_ex.ghost["env_kind"] = z3.IntVal(1)
+    s_ex.ghost["env_val"] = e
+    s_ex.ghost["bind_err"] = be
+    return [(s_ok, ("val", ret)), (s_ex, ("raise", e))]
+
+
+TABLE.default_env_call = _env_call
+
+
+bound_fn = z3.Function("bound_fn", Val, z3.StringSort(), z3.IntSort())     # identity of the bound method obj.name
+_META_FUNS = {}
+
+
+def _reify_bound(ex, st, bm):
+    """a bound method of an instance used as a value: the opaque callable VFun(bound_fn(obj, name))"""
+    return V.VFun(bound_fn(ex.lift(bm.recv), sv(bm.name)))
+
+
+def _reify_meta(ex, st, m):
+    p = m.py
+    if isinstance(p, type):
+        return V.VType(z3.IntVal(C.cid(p)))
+    key = getattr(p, "__qualname__", repr(p))
+    return V.VFun(z3.IntVal(-1000 - _META_FUNS.setdefault(key, len(_META_FUNS))))
+
+
+TABLE.reify_bound = _reify_bound
+TABLE.reify_meta = _reify_meta
+
+
+def xlate_call(ex, st, f, argv, kw, text, base=Exception):
+    """a callable invoked by the class translator (serialisation handler, custom serialise method, class
+    constructor): appends to ghost xlate_log; returns any value or raises any Exception; writes no attribute of
+    the repository's objects"""
+    T.used("translator callable", xlate_call.__doc__.strip())
+    st = st.copy()
+    TABLE.ghost_append(st, "xlate_log", V.mk_tuple([f, argv, kw]))
+    ret = V.fresh("xret")
+    s_ok = st.copy()
+    s_ok.sig.append("xlate:%s:ret" % text)
+    s_ex = st.copy()
+    s_ex.sig.append("xlate:%s:raise" % text)
+    e = ex.env_exc(s_ex, base)
+    return [(s_ok, ("val", ret)), (s_ex, ("raise", e))]
+
+TABLE.xlate_call = xlate_call
